@@ -31,3 +31,14 @@ func verifWithSetBucket(keys [][]byte, fn func(tx *bbolt.Tx, b *bbolt.Bucket)) {
 	})
 	_ = db.Close()
 }
+
+var verifQueryFamilies []func() []string
+
+// VerifQueries lists every concrete query string the boltz harnesses parse.
+func VerifQueries() []string {
+	var out []string
+	for _, f := range verifQueryFamilies {
+		out = append(out, f()...)
+	}
+	return out
+}
